@@ -823,7 +823,15 @@ impl Sim {
                     .cloned()
                     .or_else(|| p.downcast_ref::<&str>().map(|s| (*s).to_string()))
                     .unwrap_or_default();
-                self.emit(json!({"ev": "panic", "cmd": cmd, "panic": msg}));
+                // the message a panicking task poll had taken from the transport tells which service the panic is about
+                let rcv = if cmd["op"] == "task" {
+                    let i = Self::ei(cmd["e"].as_str().unwrap_or("A"));
+                    let l = self.link.lock().unwrap_or_else(std::sync::PoisonError::into_inner);
+                    l.ends[i].rcv_log.as_ref().map(decode_item).unwrap_or_else(none_msg)
+                } else {
+                    Value::Null
+                };
+                self.emit(json!({"ev": "panic", "cmd": cmd, "panic": msg, "rcv": rcv}));
                 self.dead = true;
                 true
             }
@@ -886,6 +894,16 @@ impl Sim {
                 let id = if h != 0 { flow_id_of(&self.eps[i].streams[&h].s) } else { 0 };
                 self.emit(json!({"ev": op, "e": e, "c": c, "host": cmd["host"].as_str().unwrap_or(""),
                     "port": cmd["port"].as_u64().unwrap_or(0), "draws": draws, "res": res, "h": h, "id": id}));
+                true
+            }
+            "cancel" => {
+                // the application gives up a pending stream / bind request: the future is dropped
+                let c = cmd["c"].as_u64().unwrap() as u32;
+                let had = self.eps[i].opens.remove(&c).is_some() || self.eps[i].binds.remove(&c).is_some();
+                if !had {
+                    return false;
+                }
+                self.emit(json!({"ev": "cancel", "e": e, "c": c, "res": "ok"}));
                 true
             }
             "accept" => {
